@@ -44,7 +44,7 @@ func init() {
 	}})
 	register(&Engine{Prop: "C15", Run: c15.Run, Watchdog: 300 * time.Second, Info: func() map[string]interface{} {
 		return map[string]interface{}{
-			"rule": "one run = one stored source (embedded corpus of 133 real/edge-case files or a generated file) and one fault mode: exhaustive truncation at every byte offset or a comment inserted at every token boundary (sources <= 3000 bytes), reader errors at ~64 offsets plus (n>0, EOF) readers, writer errors at ~48 offsets, or 24 tape-sampled inputs with 1-3 composed storage faults (truncate, bitflip, zero/garbage/drop/dup/swap range, syntax byte, comment insertion); each faulted input goes through one of 7 parse entry points and every tree returned through every printer. " +
+			"rule": "one run = one stored source (embedded corpus of 133 real/edge-case files or a generated file) and one fault mode: exhaustive truncation at every byte offset or a comment inserted at every token boundary (sources <= 3000 bytes), reader errors at ~64 offsets plus (n>0, EOF) readers, writer errors at ~48 offsets, or 24 tape-sampled inputs with 1-3 composed storage faults (truncate, bitflip, zero/garbage/drop/dup/swap range, syntax byte, comment insertion); each faulted input goes through one of 8 parse entry points and every tree returned through every printer. " +
 				"evaluations = faulted inputs parsed; a case is (input bytes hash, entry point, parser mode, FileSet preload, stream fault) and is non-trivial when the bytes differ from the stored source or a stream fault is armed; distinct by 64-bit hash over all processes.",
 			"real": []string{"decorator.Parse / ParseFile / ParseDir / DecorateFile / Decorator with imports", "decorator.Fprint / RestoreFile / Restorer(imports).Fprint / Restorer(Extras)", "goast + guess resolvers", "go/parser", "go/format"},
 			"stub": []string{"faulty io.Reader / io.Writer", "storage-fault transformer over the stored bytes"},
